@@ -39,7 +39,11 @@ pub const GOOD_DEPENDS: [(&str, &str, &str); 10] = [
     ("PKGNAME=x-[0-9]*:../../a/b", "PKGNAME=x-[0-9]*", "a/b"),
 ];
 
-pub const BAD_DEPENDS: [&str; 13] = [
+pub const BAD_DEPENDS: [&str; 17] = [
+    "bar-[0-9]*:../../devel/bar:",
+    "bar-[0-9]*:",
+    ":",
+    "bar-[0-9]*:../../devel/bar::",
     "foo-1.0:../../devel/..",
     "foo-1.0:../../../..",
     "foo-1.0:../../../devel",
@@ -718,6 +722,7 @@ impl Property for C16 {
     fn execute(&self, sc: &Sc, ctx: &mut Ctx) -> Outcome {
         let rend = render(sc);
         let bytes = rend.bytes.clone();
+        let work = Work::start();
         let (res, log) = match sc.seam {
             Seam::Direct => {
                 let r = SimBufReader::new(bytes.clone(), sc.script.clone());
@@ -730,6 +735,7 @@ impl Property for C16 {
                 (ScanIndex::from_reader(BufReader::with_capacity(c, r)), log)
             }
         };
+        work.stop(ctx, bytes.len());
         let log = log.borrow();
         log.absorb(ctx, "fill_buf");
         // probes
@@ -1029,6 +1035,9 @@ impl Property for C16 {
         }
     }
 
+    fn work_factor(&self) -> Option<u64> {
+        Some(1024)
+    }
     fn rule(&self) -> String {
         "Each run draws 0..8 records from a structured model (PKGNAME first, then any subset/order of the other \
          keys, repeated scalar keys, unknown keys, lines without '=', blank lines, ASCII blanks around lines, \
